@@ -54,6 +54,7 @@ struct H {
     last_restored: Option<usize>,
     last_own: Option<OwnInfo>,
     len_at_durable: usize,
+    in_cleanup: bool,
     kinds: BTreeMap<&'static str, u64>,
 }
 
@@ -107,6 +108,7 @@ impl H {
             last_restored: None,
             last_own: None,
             len_at_durable: 0,
+            in_cleanup: false,
             kinds: BTreeMap::new(),
         }
     }
@@ -188,6 +190,10 @@ impl H {
                 self.txn_none = false;
                 self.last_restored = None;
                 self.emit("begin", "begin".into(), "ok".into());
+                // half of the histories lean towards runs of non-durable commits (restores after them)
+                if !self.in_cleanup && self.idx % 2 == 1 && self.r.chance(1, 2) {
+                    self.op_dur_to(true);
+                }
             }
             Ok(Err(e)) => {
                 self.emit("begin", "begin".into(), format!("other {e}"));
@@ -202,6 +208,10 @@ impl H {
 
     fn op_dur(&mut self) {
         let none = self.r.chance(1, 2);
+        self.op_dur_to(none);
+    }
+
+    fn op_dur_to(&mut self, none: bool) {
         let t = self.txn.as_mut().unwrap();
         let out = match t.set_durability(if none { redb::Durability::None } else { redb::Durability::Immediate }) {
             Ok(()) => {
@@ -659,6 +669,7 @@ impl H {
         if self.dead {
             return;
         }
+        self.in_cleanup = true;
         if self.txn.is_some() {
             if self.r.chance(1, 2) {
                 self.op_commit();
